@@ -161,7 +161,7 @@ def r06c(model, ctx):
                         ctx.viol(R, f"connections-writer:{rel}", f"{rel} writes netlist.connections outside _ir.NetlistEmitter.connect",
                                  f"{rel}:{n.lineno}")
     # connect(): the membership test raising DriverConflict dominates the write
-    fc = model.func(f"{IR}::NetlistEmitter.connect")
+    fc = model.func_view(f"{IR}::NetlistEmitter.connect")
     g = CFG(fc, inline_closures=False)
     wr = g.nodes(lambda s: isinstance(s, ast.Assign) and any(isinstance(t, ast.Subscript) and
                                                              unparse(t.value) == "self.netlist.connections" for t in s.targets))
@@ -237,6 +237,13 @@ def _eval_bool(e, env):
     if isinstance(e, ast.UnaryOp) and isinstance(e.op, ast.Not):
         v = _eval_bool(e.operand, env)
         return None if v is None else not v
+    # a call to a sibling predicate of the cell class (e.g. Operator.comb_edges_is_per_bit(self)): evaluate its body
+    if isinstance(e, ast.Call) and env is not None and env.get("predicates") and \
+            (dotted(e.func) or "").split(".")[-1] in env["predicates"]:
+        pred = env["predicates"][(dotted(e.func) or "").split(".")[-1]]
+        env2 = {k: v for k, v in env.items() if k != "predicates"}
+        vals = {_eval_bool(p.ret, env2) for p in run_paths(pred.body, decide=lambda t: _eval_bool(t, env2)) if p.how == "return"}
+        return vals.pop() if len(vals) == 1 else None
     if isinstance(e, ast.Compare) and len(e.ops) == 1:
         l, o, r = e.left, e.ops[0], e.comparators[0]
         lv = None
@@ -247,6 +254,12 @@ def _eval_bool(e, env):
         if lv is None:
             return None
         rv = const_str(r) if isinstance(lv, str) else const_int(r)
+        if isinstance(o, (ast.In, ast.NotIn)) and isinstance(lv, int) and isinstance(r, (ast.Tuple, ast.List, ast.Set)) and \
+                all(const_int(x) is not None for x in r.elts):
+            hit = lv in [const_int(x) for x in r.elts]
+            return hit if isinstance(o, ast.In) else not hit
+        if isinstance(o, ast.NotIn) and isinstance(lv, str) and str_elts(r) is not None:
+            return lv not in str_elts(r)
         if isinstance(o, ast.Eq) and rv is not None:
             return lv == rv
         if isinstance(o, ast.NotEq) and rv is not None:
@@ -312,11 +325,12 @@ def r06d(model, ctx):
         if name == "Operator":
             uni = c04.nir_operator_universe(model)
             for (op, n) in sorted(uni):
-                env = {"op": op, "arity": n}
+                env = {"op": op, "arity": n, "predicates": {"comb_edges_is_per_bit": pb}}
                 ys, filt = _yields_on(ce, env)
                 uses_bit = any("bit" in names_in(y) for y in ys)
-                paths = [p for p in run_paths(pb.body, decide=lambda t, env=env: _eval_bool(t, env)) if p.how == "return"]
-                vals = {_eval_bool(p.ret, env) for p in paths}
+                env_pb = {"op": op, "arity": n}
+                paths = [p for p in run_paths(pb.body, decide=lambda t, env=env_pb: _eval_bool(t, env)) if p.how == "return"]
+                vals = {_eval_bool(p.ret, env_pb) for p in paths}
                 need(len(vals) == 1 and None not in vals, f"Operator.comb_edges_is_per_bit: cannot evaluate for {op!r}/{n}")
                 per_bit = vals.pop()
                 ctx.check(per_bit == uses_bit, R, f"Operator:{op}/{n}:per-bit-iff",
@@ -344,6 +358,9 @@ def r06d(model, ctx):
                           f"netlist operator {op!r}/{n}: comb_edges_to yields edges from inputs {sorted(reach_idx)}, "
                           f"expected all of {list(range(n))}", f"{NIR}:{ce.lineno}")
             continue
+        if name == "AssignmentList":
+            from ..engine.inline import propagate_locals
+            ce = propagate_locals(ce)       # hoisted sub-expressions (e.g. offset = bit - assign.start) are put back
         ys, filt = _yields_on(ce, None)
         uses_bit = any("bit" in names_in(y) for y in ys) or any("bit" in names_in(t) for _, fs in filt for t in fs)
         rets = [s for s in ast.walk(pb) if isinstance(s, ast.Return)]
@@ -368,7 +385,9 @@ def r06d(model, ctx):
             # no filtering of edges except the AssignmentList window and IOBuffer direction test
             for y, fs in filt:
                 ftxt = [unparse(t) for t in fs]
-                ok = (name == "AssignmentList" and ftxt == ["bit >= assign.start and bit < assign.start + len(assign.value)"]) or \
+                from ..engine.norm import inequality_set
+                win = inequality_set(ast.parse("bit >= assign.start and bit < assign.start + len(assign.value)", mode="eval").body)
+                ok = (name == "AssignmentList" and len(fs) == 1 and inequality_set(fs[0]) == win) or \
                      (name == "IOBuffer" and ftxt == ["self.dir is not IODirection.Input"])
                 ctx.check(ok, R, f"{name}:unfiltered-edges:{unparse(y.value)[:40]}", f"edge filter {ftxt} is an enumerated idiom",
                           f"{name}.comb_edges_to drops edges under the condition {ftxt}: a combinational cell's output "
@@ -414,6 +433,13 @@ def _reachable_input_indices(fn, env):
                 has_yield = any(isinstance(n, ast.Yield) for n in ast.walk(s))
                 if m is not None and const_int(m["_V_I"]) is not None and has_yield:
                     idx.add(const_int(m["_V_I"]))
+                if unparse(s.iter) == "self.inputs" and isinstance(s.target, ast.Name):
+                    # the loop variable stands for every input: a yield that mentions it covers all of them
+                    v = s.target.id
+                    if any(isinstance(n, ast.Yield) and n.value is not None and v in names_in(n.value) for n in ast.walk(s)) or \
+                            any(isinstance(l2, ast.For) and unparse(l2.iter) == v and any(isinstance(n, ast.Yield) for n in ast.walk(l2))
+                                for l2 in ast.walk(s)):
+                        idx.update(range(env["arity"]))
                 walk(s.body)
             elif isinstance(s, ast.Assert):
                 continue
